@@ -207,6 +207,34 @@ CLAIMED["C18"] = (
     "DESIGN.md 3 C18",
 )
 
+# additions made while strengthening against seeded changes (DESIGN.md 9.1), appended to the level text
+EXTRA = {
+    "C01": " Sequences: every history of 3 (4) records over 21 record kinds (C03's two universes - colliding identifiers, same-name types, holders, grouped records of equal "
+    "flat layout, look-alike type names observed by the name they were created with, a write failing while packing - plus typed rows incl. UTC offsets with seconds) in ONE "
+    "stream reads back as the same sequence (history symbolic, path-exhaustive).",
+    "C02": " Sequences of 3 (4) records over 17 record kinds in one stream are decoded by the independent reference codec to exactly the records written, every identifier announced "
+    "by an earlier descriptor frame (history symbolic, path-exhaustive).",
+    "C03": " A second universe of nine kinds (grouped records with equal group name and flat layout but different member types, type names differing only in '/' vs '_', a write "
+    "that fails while packing followed by good records of that type) is explored the same way.",
+    "C06": " A solver-built unacceptable definition whose identifier input coincides with that of a registered legitimate descriptor must still be refused when it arrives after it "
+    "(stream and JSON channel).",
+    "C07": " A typed family (61 helper / comparison / membership programs over ipaddress v4/v6, ipnetwork, uri, path, string[], bytes, float, command and filesize fields) and programs "
+    "with several generator expressions (sequential reuse of a loop variable must evaluate; nested re-binding may be refused but never mis-evaluated) are decided the same way; every "
+    "program is evaluated by a selector object that matched a same-name record of another layout before.",
+    "C08": " The other operand also ranges over typed field matchers and fields of 23 field types (8 operators x both positions x both engines), and every selector object has matched "
+    "a same-name record that HAS the fields before; mixed streams also carry both layouts under one type name in both orders.",
+    "C09": " Generators consumed by membership tests, if clauses and comprehensions are among the contexts; every allowed callee (helpers, builtins, every whitelisted field-type "
+    "constructor) is handed callables reached through attributes in 8 argument placements and must invoke nothing and leave the record unchanged; purity programs apply operators to "
+    "list-valued fields.",
+    "C10": " One selector object meets histories of 3 (4) records over 7 kinds (layouts sharing a type name, grouped records of different composition, a nested holder) x 15 programs: "
+    "every verdict equals that of a fresh selector; the real SqliteReader.read_table pagination runs under the uninterpreted selector for every reader batch size.",
+    "C11": " RecordStreamReader.readheader's accept decision (SMT from its AST): accepted implies the magic at offset 6 of the header frame; two writers open at the same time over "
+    "every codec pair and every schedule of 4 interleaved writes read back as their own records (real codecs, schedule symbolic).",
+    "C12": " The ignored-fields configuration is also applied to grouped and nested records (symbolic ignore bits).",
+    "C15": " One RecordFieldRewriter serves two layouts of one type name in both arrival orders; GroupedRecord._replace is replayed at member level.",
+    "C16": " A real --split battery (more parts than the suffix length can number) is a further concrete side condition.",
+}
+
 NOT_APPLICABLE = {
     "C13": "every operation the property constrains (datetime construction/arithmetic, fromisoformat, zoneinfo, fastavro/sqlite3 conversions) is C code; "
     "CrossHair realises each datetime component at the C constructor and the repo-side logic is two value-free ifs, so no value-level case would be decided by the solver (DESIGN.md 6)",
@@ -227,6 +255,7 @@ def main():
         pid = p["id"]
         if pid in CLAIMED and os.path.exists(os.path.join(VERIF, "harness", pid + ".py")):
             tech, text, note, ref = CLAIMED[pid]
+            text = text + EXTRA.get(pid, "")
             checks.append(
                 {
                     "property_id": pid,
